@@ -204,7 +204,7 @@ class SockRunner:
     def final(self):
         if self.thread_alive():
             self.wait_parked_or_dead()
-        return 'q=%d alive=%s opened=%s del=%s tx=%s' % (self.conn.rxqueue.qsize(), core.b01(self.thread_alive()), core.b01(self.conn.is_open()),
+        return 'q=%d alive=%s opened=%s del=%s tx=%s' % (qlen(self.conn.rxqueue), core.b01(self.thread_alive()), core.b01(self.conn.is_open()),
                                                        frames_str(self.delivered), frames_str(self.sock.tx))
 
     def cleanup(self):
@@ -399,6 +399,14 @@ def suite_queue(ctx):
     return s
 
 
+def qlen(q):
+    """number of frames waiting in the connection's receive buffer, whatever container it is"""
+    try:
+        return q.qsize()
+    except AttributeError:
+        return len(q)
+
+
 def suite_socketpair(ctx):
     """real sockets, real receiver thread: bursts, disconnect, close racing reception, honest timeouts (property on the implementation)"""
     import importlib
@@ -466,8 +474,8 @@ def suite_socketpair(ctx):
             elif got != [f[:conn.bufsize] for f in sent]:
                 s.fail(dict(rec, observed='%d frames (first difference at %s)' % (len(got), next((i for i, (x, y) in enumerate(zip(got, sent)) if x != y), min(len(got), len(sent)))),
                             required='exactly the %d frames sent, in order, once' % len(sent)))
-            if conn.rxqueue.qsize() != 0:
-                s.fail(dict(rec, observed='queue size %d after draining' % conn.rxqueue.qsize(), required='0'))
+            if qlen(conn.rxqueue) != 0:
+                s.fail(dict(rec, observed='queue size %d after draining' % qlen(conn.rxqueue), required='0'))
             t0 = time.monotonic()
             conn.close()
             if conn.rxthread.is_alive() or time.monotonic() - t0 > 5.0:
@@ -499,6 +507,60 @@ def suite_socketpair(ctx):
             s.evaluations += 1
             s.distinct.add(rec['input'])
             s.count('kind=' + kname)
+    # several consumers: a waiter whose frame another consumer took still waits its whole timeout; the frame comes out exactly once
+    T = 0.4
+    for rep in range(ctx.n(5, 30)):
+        a, b = socket.socketpair(socket.AF_UNIX, socket.SOCK_SEQPACKET)
+        conn = uconn.SocketConnection(a, bufsize=64)
+        conn.open()
+        res, taken, stop = {}, [], threading.Event()
+
+        def waiter():
+            t0 = time.monotonic()
+            try:
+                f = conn.wait_frame(timeout=T, exception=True)
+                res['w'] = ('frame', f, time.monotonic() - t0)
+            except TimeoutException:
+                res['w'] = ('timeout', None, time.monotonic() - t0)
+            except Exception as e:  # noqa
+                res['w'] = (type(e).__name__, None, time.monotonic() - t0)
+
+        def poller():
+            while not stop.is_set():
+                try:
+                    f = conn.wait_frame(timeout=0, exception=False)
+                except Exception:  # noqa
+                    return
+                if f is not None:
+                    taken.append(f)
+        npoll = rep % 5
+        ths = [threading.Thread(target=waiter)] + [threading.Thread(target=poller, daemon=True) for _ in range(npoll)]
+        for th in ths:
+            th.start()
+        time.sleep(0.03)
+        frame = bytes([0x50 + rep, 1, 2])
+        b.send(frame)
+        ths[0].join(T + 5)
+        stop.set()
+        for th in ths[1:]:
+            th.join(2)
+        rec = {'site': 'SocketConnection, several consumers', 'input': 'one waiter (timeout %.1f s) and %d polling consumers, one frame sent after 0.03 s' % (T, npoll), 'kind': 'seqpacket'}
+        s.evaluations += 1
+        s.count('consumers=%d' % (npoll + 1))
+        how, f, el = res.get('w', ('still waiting', None, 0))
+        outs = ([f] if how == 'frame' else []) + taken
+        late = conn.wait_frame(timeout=0.05 if outs else 2.0, exception=False)      # a starved receiver thread may not have queued it yet: it is still there to be read
+        if late is not None:
+            outs.append(late)
+        if outs != [frame]:
+            s.fail(dict(rec, observed='delivered %r' % (outs,), required='the frame exactly once'))
+        elif how == 'timeout' and el < T - 0.002:
+            s.fail(dict(rec, observed='the waiter gave up after %.4f s with nothing delivered to it' % el, required='no earlier than its timeout %.1f s' % T))
+        elif how not in ('frame', 'timeout'):
+            s.fail(dict(rec, observed=how, required='a frame or a timeout'))
+        conn.close()
+        a.close()
+        b.close()
     # a backlog nobody reads, then close(): the receiver thread must still terminate
     for kname, ktype in kinds:
         for n in (10, 300, ctx.n(1200, 6000)):
